@@ -129,9 +129,26 @@ theorem zero_limit_index_error (P : Nat) (arrivals : List Nat) :
   intro r hr
   rw [h r hr]
 
-/-- a `timedelta` period counts as its number of seconds -/
-theorem period_forms (n : Nat) :
-    (PeriodArg.timedelta n).toSeconds = (PeriodArg.seconds n).toSeconds := rfl
+/-- C15 period forms: a `timedelta` period is its `total_seconds()` – whole days and the
+sub-second part both count: in milliseconds, `250 * ticks = 1000 * (days * 86400 + seconds) + millis`
+(ticks are quarter seconds; `millis` a multiple of 250). -/
+theorem period_forms (d s ms : Nat) (h : ms % 250 = 0) :
+    250 * (PeriodArg.timedelta d s ms).toTicks = 1000 * (d * 86400 + s) + ms := by
+  simp only [PeriodArg.toTicks, ticksPerSecond]
+  omega
+
+/-- a whole-second `timedelta`, an int and a float of the same length are the same period -/
+theorem period_forms_agree (n : Nat) :
+    (PeriodArg.timedelta 0 n 0).toTicks = (PeriodArg.int n).toTicks ∧
+      (PeriodArg.int n).toTicks = (PeriodArg.float (4 * n)).toTicks := by
+  simp only [PeriodArg.toTicks, ticksPerSecond]
+  omega
+
+/-- one more day is 86400 more seconds, never dropped -/
+theorem period_days_count (d s ms : Nat) :
+    (PeriodArg.timedelta (d + 1) s ms).toTicks = (PeriodArg.timedelta d s ms).toTicks + 86400 * 4 := by
+  simp only [PeriodArg.toTicks, ticksPerSecond]
+  omega
 
 /-! ## Non-vacuity -/
 
@@ -159,5 +176,9 @@ example :
 example : (startTimes 2 7 [3, 3, 3, 3, 3, 3])[5]? = some (3 + (5 / 2) * 7) := by decide
 
 example : run 0 5 init [1, 2] = [.indexError, .indexError] := by decide
+
+/-- `timedelta(milliseconds=1500)` is 6 quarter seconds, `timedelta(days=1)` is a full day -/
+example : (PeriodArg.timedelta 0 0 1500).toTicks = 6 ∧ (PeriodArg.timedelta 1 0 0).toTicks = 345600 ∧
+    (PeriodArg.timedelta 0 0 500).toTicks = 2 := by decide
 
 end Haiway.C15
